@@ -26,6 +26,8 @@ BAG = {
     # a caller stops reading, its callee yields (held back in the retry loop), ...
     "retryseq": '<<"join","join","reg","call","stallc","yield","yield","yield","pub","msess","adv","resume","call","yield","leave">>',
     "pci": '<<"join","join","reg","reg","unreg","pcall","pcall","pcall","pcall","yield","yield","inverr","cancel","call","leave","adv">>',
+    # payload passthru mode: publishers, callers and callees that announced the feature or did not
+    "ppt": '<<"join","join","join","reg","reg","call","call","call","answer","answer","answer","pub","pub","sub","sub","leave","adv","cancel">>',
     "killx": '<<"join","join","sub","wsub","tst","tst","kill","kill","kill","leave","msess","pub">>',
     "stallburst": '<<"join","join","sub","sub","sub","stall","bpub","bpub","bpub","resume","pub","leave">>',
     "burst": '<<"join","join","sub","sub","sub","reg","pub","bpub","bpub","bpub","leave","bmix">>',
@@ -44,16 +46,22 @@ PROPS = {
     "C01": dict(family="core",
                 mc=dict(kinds=["join", "sub", "unsub", "pub", "leave"], inv=MC_PUBSUB,
                         quick=dict(steps=5, nsess=2), thorough=dict(steps=6, nsess=3)),
-                gen=[dict(bag="pubsub", depth=16, quick=160, thorough=2500)],
+                gen=[dict(bag="pubsub", depth=16, quick=160, thorough=2500),
+                     dict(bag="ppt", depth=16, quick=50, thorough=800, mode="ppt")],
                 classes=["pubsub"]),
     "C02": dict(family="core",
                 mc=dict(kinds=MC_RPC_KINDS,
                         inv=["TablesOK", "C02_AtMostOneFinal", "C02_NoStray", "C02_Owed", "C02_NoOrphan", "C02_NoLateTimer"],
                         quick=dict(steps=5, nsess=2), thorough=dict(steps=6, nsess=3)),
+                # payload passthru mode: callers and callees that announced the feature or did not
+                mc2=[dict(kinds=["join", "reg", "call", "yield", "leave", "ppt"],
+                          inv=["TablesOK", "C02_AtMostOneFinal", "C02_NoStray", "C02_Owed", "C02_NoOrphan"],
+                          quick=dict(steps=5, nsess=2), thorough=dict(steps=6, nsess=3))],
                 gen=[dict(bag="rpc", depth=18, quick=120, thorough=2500),
                      dict(bag="cancel", depth=18, quick=80, thorough=1500),
                      dict(bag="killrpc", depth=16, quick=80, thorough=1500),
-                     dict(bag="pci", depth=18, quick=100, thorough=2000)],
+                     dict(bag="pci", depth=18, quick=100, thorough=2000),
+                     dict(bag="ppt", depth=18, quick=100, thorough=2000, mode="ppt")],
                 classes=["rpcreply"]),
     "C03": dict(family="core",
                 mc=dict(kinds=MC_RPC_KINDS,
@@ -71,7 +79,8 @@ PROPS = {
                      dict(bag="mixed", depth=20, quick=60, thorough=1500),
                      dict(bag="kill", depth=18, quick=60, thorough=1500),
                      dict(bag="tst", depth=18, quick=50, thorough=1000),
-                     dict(bag="pci", depth=16, quick=60, thorough=1000)],
+                     dict(bag="pci", depth=16, quick=60, thorough=1000),
+                     dict(bag="ppt", depth=16, quick=60, thorough=1000, mode="ppt")],
                 classes=["sess", "pubsub", "meta", "rpcreply", "rpcroute", "rpcintr", "snap"]),
     "C18": dict(family="core",
                 mc=dict(kinds=["join", "wsub", "sub", "reg", "kill", "tst", "leave"],
@@ -423,6 +432,10 @@ def run_core(prop, spec, tier, seed, work, replay):
         mcst = {"distinct": 0, "generated": 0, "wall_s": 0.0}
         if spec.get("mc"):
             mcst = model_check(work, "MC", mc_cfg(spec["mc"], tier), timeout=3000, tag="mc")
+        for n2, mc2 in enumerate(spec.get("mc2", [])):
+            st2 = model_check(work, "MC", mc_cfg(mc2, tier), timeout=3000, tag="mc2-%d" % n2)
+            for k in mcst:
+                mcst[k] = mcst[k] + st2[k]
         if spec.get("mcx"):
             xst = run_mcx(work, spec["mcx"], tier)
             for k in mcst:
